@@ -478,6 +478,23 @@ func successors(s attState, resign bool) []mc.BFSState {
 			})
 		}
 	}
+	// E'. nest a signature inside a wrapper child of the element that carries it
+	for k := 0; k < nS; k++ {
+		k := k
+		apply(fmt.Sprintf("nest-sig[%d]", k), func(d *etree.Document) bool {
+			sg := S(d, k)
+			p := sg.Parent()
+			if p == nil || p.Tag == "Extensions" {
+				return false
+			}
+			idx := sg.Index()
+			p.RemoveChildAt(idx)
+			wr := wrapper("Extensions")
+			wr.AddChild(sg)
+			p.InsertChildAt(idx, wr)
+			return true
+		})
+	}
 	// F. change what a signature references
 	for k := 0; k < nS; k++ {
 		targets := []string{"", "#" + base.Root().SelectAttrValue("ID", "")}
